@@ -12,7 +12,7 @@ out=/tmp/svout-$sid
 rm -rf "$out"; mkdir -p "$out"
 git -C /repo worktree remove --force "$wt" 2>/dev/null
 git -C /repo worktree add -q --detach "$wt" HEAD || exit 2
-demo=$(ls "$mut" | grep -v -e patch.diff -e DEMO.txt -e NOTES.txt | head -1)
+demo=$(ls "$mut" | grep -v -e patch.diff -e DEMO.txt -e DEMO.json -e NOTES.txt | head -1)
 mkdir -p "$wt/$(dirname "$dest")"
 cp "$mut/$demo" "$wt/$dest"
 (cd "$wt" && eval "$@") > "$out/demo_clean.log" 2>&1; demo_clean=$?
